@@ -37,6 +37,8 @@ def nx_run(run, units):
     tot = {"cases": 0, "validated": 0, "kernels": 0}
     for unit, (status, res) in zip(units, results, strict=True):
         label = unit["label"]
+        if status == "skipped":
+            continue
         if status != "ok":
             run.report({"signature": {"kind": "worker-exception"}, "what": f"harness worker failed: {res}", "case": {}})
             continue
@@ -91,6 +93,8 @@ def run(tier, seed):
     print(f"[C06] (b) printers: {ntrees} IR trees in {parts} batches", flush=True)
     tree_states = tree_valid = 0
     for status, res in run_pool("vx.txwork", "work_printers", rotate(tunits, seed)):
+        if status == "skipped":
+            continue
         if status != "ok":
             run.report({"signature": {"kind": status}, "what": f"worker failed: {res}", "case": {}})
             continue
